@@ -12,7 +12,6 @@ pub fn prop() -> HistProp {
     let mut rc = RunCfg::new(&[Aspect::Times, Aspect::Panic, Aspect::Budget]);
     rc.times = true;
     rc.flush_each = true;
-    rc.known.dst_inside_src = true;
     let mut gc = GenCfg::mixed();
     gc.weights.push((K::SetTimes, 8));
     gc.weights.push((K::Tick, 14));
